@@ -50,6 +50,12 @@ class Module(object):
             raise AnalysisError("cannot parse %s: %s" % (rel, e))
         self.funcs = {}
         self.classes = {}
+        try:
+            fold_kernel_keywords(self.tree, root)
+        except AnalysisError:
+            raise
+        except Exception:
+            pass     # no interface file / not parsable: calls stay as written
         self._index(self.tree, "")
         for n in ast.walk(self.tree):
             for c in ast.iter_child_nodes(n):
@@ -632,11 +638,17 @@ def normalise_loops(fn):
                 i = st.targets[0].id
                 t = nxt.test
                 body = nxt.body
-                lastinc = body and isinstance(body[-1], ast.AugAssign) and isinstance(body[-1].op, ast.Add) and isinstance(body[-1].target, ast.Name) \
-                    and body[-1].target.id == i and isinstance(body[-1].value, ast.Constant) and body[-1].value.value == 1
+                def is_inc(b_):
+                    return (isinstance(b_, ast.AugAssign) and isinstance(b_.op, ast.Add) and isinstance(b_.target, ast.Name) and b_.target.id == i
+                            and isinstance(b_.value, ast.Constant) and b_.value.value == 1) or \
+                           (isinstance(b_, ast.Assign) and len(b_.targets) == 1 and isinstance(b_.targets[0], ast.Name) and b_.targets[0].id == i
+                            and src(b_.value).replace(" ", "") in ("%s+1" % i, "1+%s" % i))
+                incpos = [q for q, b_ in enumerate(body) if is_inc(b_)]
+                # the increment may sit anywhere at the top level of the body as long as the counter is not read after it
+                lastinc = len(incpos) == 1 and not any(isinstance(x, ast.Name) and x.id == i for b_ in body[incpos[0] + 1:] for x in ast.walk(b_))
                 cmp_ok = isinstance(t, ast.Compare) and len(t.ops) == 1 and isinstance(t.ops[0], ast.Lt) and isinstance(t.left, ast.Name) and t.left.id == i
                 if lastinc and cmp_ok:
-                    inner = body[:-1]
+                    inner = body[:incpos[0]] + body[incpos[0] + 1:]
                     bound = t.comparators[0]
                     bnames = {x.id for x in ast.walk(bound) if isinstance(x, ast.Name)}
                     stored = names_stored(inner)
@@ -658,9 +670,12 @@ def normalise_loops(fn):
     # second step:  for k in range(len(X)): ... X[k] ...   with k used for nothing else and X not rebound   ->   for X__item in X: ... X__item ...
     for lp in [n for n in ast.walk(fn) if isinstance(n, ast.For)]:
         it = lp.iter
-        if not (isinstance(lp.target, ast.Name) and isinstance(it, ast.Call) and src(it.func) == "range" and len(it.args) == 1 and not lp.orelse):
+        if not (isinstance(lp.target, ast.Name) and isinstance(it, ast.Call) and src(it.func) == "range" and len(it.args) in (1, 2) and not lp.orelse):
             continue
-        a0 = it.args[0]
+        start = it.args[0] if len(it.args) == 2 else None
+        if start is not None and not (isinstance(start, ast.Constant) and isinstance(start.value, int) and start.value >= 0):
+            continue
+        a0 = it.args[-1]
         if isinstance(a0, ast.Name):
             a0 = resolved(fn, a0, 2)       # ncolumns = len(X); for j in range(ncolumns)
         if not (isinstance(a0, ast.Call) and src(a0.func) == "len" and len(a0.args) == 1 and isinstance(a0.args[0], (ast.Name, ast.Attribute))):
@@ -683,7 +698,7 @@ def normalise_loops(fn):
                 return self.generic_visit(n)
         lp.body = [Rep().visit(b) for b in lp.body]
         lp.target = ast.copy_location(ast.Name(id=item, ctx=ast.Store()), lp.target)
-        lp.iter = clone(X)
+        lp.iter = clone(X) if (start is None or start.value == 0) else ast.Subscript(value=clone(X), slice=ast.Slice(lower=ast.Constant(value=start.value), upper=None, step=None), ctx=ast.Load())
         ast.fix_missing_locations(lp)
     # third step:  for t in S: name = t; BODY   (name assigned nowhere else in the loop, t not used in BODY)  ->  for name in S: BODY
     for lp in [n for n in ast.walk(fn) if isinstance(n, ast.For)]:
@@ -821,6 +836,57 @@ def kernel_calls(tree, names=None, imported=None):
             elif d in imported and (names is None or d in names):
                 out.append((d, n))
     return out
+
+
+_PYSIG = {}
+
+
+def python_signatures(root):
+    """kernel name -> argument names in the order of the f2py-generated Python signature (hidden arguments dropped, required
+    before optional), from src/_cImageD11.pyf"""
+    path = os.path.join(root, "src", "_cImageD11.pyf")
+    if path not in _PYSIG:
+        from . import iface
+        fns, order = iface.crack(path)
+        sig = {}
+        for name, b in fns.items():
+            req, opt = [], []
+            for a in b.get("args", []):
+                v = b.get("vars", {}).get(a, {})
+                intent = v.get("intent", []) or []
+                attr = v.get("attrspec", []) or []
+                if "hide" in intent:
+                    continue
+                (opt if ("optional" in attr or "=" in v) else req).append(a)
+            sig[name] = req + opt
+        _PYSIG[path] = sig
+    return _PYSIG[path]
+
+
+def fold_kernel_keywords(tree, root):
+    """in place: a compiled-kernel call that passes arguments by the names of the f2py signature is rewritten to the positional
+    form ( compute_gv(xlylzl=a, omega=b, ...) -> compute_gv(a, b, ...) ), so that rules read one spelling"""
+    calls = [c for n_, c in kernel_calls(tree) if c.keywords]
+    if not calls:
+        return
+    sig = python_signatures(root)
+    for c in calls:
+        d = dotted(c.func) or ""
+        names = sig.get(d.rsplit(".", 1)[-1])
+        if not names or any(k.arg is None for k in c.keywords) or any(isinstance(a, ast.Starred) for a in c.args):
+            continue
+        kw = {k.arg: k.value for k in c.keywords}
+        if not set(kw) <= set(names):
+            continue
+        args = list(c.args)
+        for nm in names[len(args):]:
+            if nm in kw:
+                args.append(kw.pop(nm))
+            else:
+                break
+        if not kw:
+            c.args = args
+            c.keywords = []
 
 
 def library_files(root, tier="quick"):
